@@ -111,6 +111,152 @@ func c06ReparseGuard(fd *ast.FuncDecl) bool {
 }
 
 
+// c06Utf8Guard: fix a7918dd — in getOrCreateJournal, between the first and the second read of ims.tmap, an
+// `if <bool parameter> && !utf8.ValidString(<…>.Line()…) { … return … }`. Returns (found, onlyOnCreate): onlyOnCreate = the
+// condition is the conjunction with a bool parameter of the function (the `create` flag); a guard of another shape is a problem.
+func c06Utf8Guard(fd *ast.FuncDecl) (bool, bool) {
+	boolParams := map[string]bool{}
+	if fd.Type.Params != nil {
+		for _, fl := range fd.Type.Params.List {
+			if id, ok := fl.Type.(*ast.Ident); ok && id.Name == "bool" {
+				for _, n := range fl.Names {
+					boolParams[n.Name] = true
+				}
+			}
+		}
+	}
+	var reads []token.Pos
+	ast.Inspect(fd.Body, func(n ast.Node) bool {
+		if ix, ok := n.(*ast.IndexExpr); ok {
+			if se, ok := ix.X.(*ast.SelectorExpr); ok && se.Sel.Name == "tmap" {
+				reads = append(reads, ix.Pos())
+			}
+		}
+		return true
+	})
+	isNotValid := func(e ast.Expr) bool {
+		ue, ok := e.(*ast.UnaryExpr)
+		if !ok || ue.Op != token.NOT {
+			return false
+		}
+		ce, ok := ue.X.(*ast.CallExpr)
+		if !ok || len(ce.Args) != 1 {
+			return false
+		}
+		se, ok := ce.Fun.(*ast.SelectorExpr)
+		if !ok || (se.Sel.Name != "ValidString" && se.Sel.Name != "Valid") {
+			return false
+		}
+		// the argument mentions the canonical line: a call of a method named Line somewhere inside
+		hasLine := false
+		ast.Inspect(ce.Args[0], func(n ast.Node) bool {
+			if c2, ok := n.(*ast.CallExpr); ok {
+				if s2, ok := c2.Fun.(*ast.SelectorExpr); ok && s2.Sel.Name == "Line" {
+					hasLine = true
+				}
+			}
+			return true
+		})
+		return hasLine
+	}
+	found, onCreate := false, false
+	ast.Inspect(fd.Body, func(n ast.Node) bool {
+		is, ok := n.(*ast.IfStmt)
+		if !ok || is.Init != nil || len(reads) < 2 || is.Pos() < reads[0] || is.Pos() > reads[1] {
+			return true
+		}
+		returns := false
+		for _, st := range is.Body.List {
+			if _, ok := st.(*ast.ReturnStmt); ok {
+				returns = true
+			}
+		}
+		if !returns {
+			return true
+		}
+		if isNotValid(is.Cond) {
+			found, onCreate = true, false
+			return true
+		}
+		if be, ok := is.Cond.(*ast.BinaryExpr); ok && be.Op == token.LAND {
+			for _, pr := range [][2]ast.Expr{{be.X, be.Y}, {be.Y, be.X}} {
+				if id, ok := pr[0].(*ast.Ident); ok && boolParams[id.Name] && isNotValid(pr[1]) {
+					found, onCreate = true, true
+				}
+			}
+		}
+		return true
+	})
+	return found, onCreate
+}
+
+// c06VisitorError: pkg/partition Service.GetJournals — the closure handed to TIndex.Visit reports its failures ("could not open
+// the journal", "Limit exceeds") through a variable of the enclosing function that is tested after the visit. True iff some
+// variable tested `!= nil` after the Visit call is assigned (`=`) inside the closure and the closure does not re-declare
+// (`:=`) any of the tested names (a shadowed error variable lets GetJournals return the partitions collected so far as if
+// they were all).
+func c06VisitorError() bool {
+	f := parseFile("pkg/partition/partition.go")
+	if f == nil {
+		problem("pkg/partition/partition.go not found")
+		return true
+	}
+	fd := funcDecl(f, "Service", "GetJournals")
+	if fd == nil {
+		problem("partition.Service.GetJournals not found")
+		return true
+	}
+	var lit *ast.FuncLit
+	visitEnd := token.NoPos
+	ast.Inspect(fd.Body, func(n ast.Node) bool {
+		if ce, ok := n.(*ast.CallExpr); ok && lit == nil {
+			if se, ok := ce.Fun.(*ast.SelectorExpr); ok && se.Sel.Name == "Visit" {
+				for _, a := range ce.Args {
+					if fl, ok := a.(*ast.FuncLit); ok {
+						lit, visitEnd = fl, ce.End()
+					}
+				}
+			}
+		}
+		return true
+	})
+	if lit == nil {
+		problem("partition.Service.GetJournals: the visitor closure handed to Visit was not found (pinned fact kept)")
+		return true
+	}
+	tested := map[string]bool{} // names compared with nil after the visit
+	ast.Inspect(fd.Body, func(n ast.Node) bool {
+		if be, ok := n.(*ast.BinaryExpr); ok && be.Pos() > visitEnd && be.Op == token.NEQ {
+			if id, ok := be.X.(*ast.Ident); ok {
+				if y, ok := be.Y.(*ast.Ident); ok && y.Name == "nil" {
+					tested[id.Name] = true
+				}
+			}
+		}
+		return true
+	})
+	assigned, shadowed := false, false
+	ast.Inspect(lit.Body, func(n ast.Node) bool {
+		if as, ok := n.(*ast.AssignStmt); ok {
+			for _, lhs := range as.Lhs {
+				if id, ok := lhs.(*ast.Ident); ok && tested[id.Name] {
+					if as.Tok == token.DEFINE {
+						shadowed = true
+					} else {
+						assigned = true
+					}
+				}
+			}
+		}
+		return true
+	})
+	if !assigned && !shadowed {
+		problem("partition.Service.GetJournals: the closure assigns no variable that is tested after the visit (pinned fact kept)")
+		return true
+	}
+	return assigned && !shadowed
+}
+
 // c06CreateSite: the function that holds the create branch — getOrCreateJournal itself when it calls saveStateUnsafe()
 // directly, otherwise the first method of the same receiver called from it (depth <= 2) that does (a refactoring may move
 // "register the new descriptor and save" into a helper)
@@ -280,6 +426,19 @@ func init() {
 		l.p("/-- proposed-fixes/F08r.diff: between the raw-text look-up and the look-up of the canonical line there is an")
 		l.p("`if !tgs.Reparses() { … return … }` (a tag.Set method calling kvstring.ToMap and kvstring.MapsEquals) -/")
 		l.p("def reparseGuardBeforeLookup : Bool := %s", leanBool(fd != nil && c06ReparseGuard(fd)))
+		ug, ugc := false, false
+		if fd != nil {
+			ug, ugc = c06Utf8Guard(fd)
+			if ug && !ugc {
+				problem("tindex.getOrCreateJournal: the UTF-8 guard is not of the shape `create && !utf8.ValidString(line)` (the model refuses only when a partition would be created)")
+			}
+		}
+		l.p("/-- fix a7918dd: between the raw-text look-up and the look-up of the canonical line there is an")
+		l.p("`if create && !utf8.ValidString(string(tgs.Line())) { … return … }` -/")
+		l.p("def utf8GuardOnCreate : Bool := %s", leanBool(ug && ugc))
+		l.p("/-- pkg/partition GetJournals: the failures of the visitor closure (journal not opened, limit reached) are assigned to a")
+		l.p("variable of the enclosing function that is tested after the visit, and the closure does not re-declare it -/")
+		l.p("def getJournalsVisitorErrorReachesCaller : Bool := %s", leanBool(c06VisitorError()))
 		l.write()
 	}
 }
